@@ -86,10 +86,12 @@ def cstr(s):
 
 # ----------------------------------------------------------------------------- build / proofs
 
-def _lock():
+def _lock(shared=False):
+    """exclusive while the development is (re)built, shared while compiled files are being read (case evaluation):
+    several checks may evaluate at once, none while another one rebuilds"""
     os.makedirs(BUILD, exist_ok=True)
-    f = open(os.path.join(BUILD, '.lock'), 'w')
-    fcntl.flock(f, fcntl.LOCK_EX)
+    f = open(os.path.join(BUILD, '.lock'), 'a')
+    fcntl.flock(f, fcntl.LOCK_SH if shared else fcntl.LOCK_EX)
     return f
 
 
@@ -272,6 +274,7 @@ def coq_check_cases(tag, imports, check_fn, terms, shard=400, extra_defs=''):
         files.append(name)
     if not files:
         return [], None
+    rlock = _lock(shared=True)
     procs = []
     bad, errors = [], []
     env = dict(os.environ)
@@ -291,6 +294,7 @@ def coq_check_cases(tag, imports, check_fn, terms, shard=400, extra_defs=''):
             errors.append('%s: rc=%s %s' % (name, p.returncode, out[-1200:]))
         else:
             bad.extend(got)
+    rlock.close()
     if not errors and not os.environ.get('VERIF_KEEP_CASES'):
         shutil.rmtree(d, ignore_errors=True)
     return sorted(bad), ('\n'.join(errors) if errors else None)
@@ -305,7 +309,11 @@ def coq_eval(tag, imports, expr, extra_defs=''):
         f.write('From Coq Require Import List NArith ZArith Bool String.\n')
         f.write(imports + '\nImport ListNotations.\nOpen Scope list_scope.\n' + extra_defs + '\n')
         f.write('Eval vm_compute in (%s).\n' % expr)
-    rc, out = sh('timeout 600 coqc -R %s Viv -Q . Cases one.v' % COQ, cwd=d, timeout=700)
+    rlock = _lock(shared=True)
+    try:
+        rc, out = sh('timeout 600 coqc -R %s Viv -Q . Cases one.v' % COQ, cwd=d, timeout=700)
+    finally:
+        rlock.close()
     shutil.rmtree(d, ignore_errors=True)
     return re.sub(r'\s+', ' ', out).strip()
 
